@@ -94,7 +94,8 @@ end
 
 /-! ### enqueueing and dead-lettering -/
 
-/-- what `deliverAll` does to the database: it appends delivery rows, nothing else -/
+/-- what `deliverAll` does to the database: it appends delivery rows, nothing else — and which
+    checks the observation passed -/
 theorem deliverAll_shape {db : Db} {subs : List Sub} {m : Msg} {now : Time} {fwds : List Fwd}
     {db' : Db} {w : List Id} (h : deliverAll db subs m now fwds = .ok (db', w)) :
     ∃ rows, mkRows db subs m now fwds = .ok rows ∧ db' = { db with dels := db.dels ++ rows } ∧
@@ -111,6 +112,25 @@ theorem deliverAll_shape {db : Db} {subs : List Sub} {m : Msg} {now : Time} {fwd
         injection h with h
         injection h with h1 h2
         exact ⟨rows, hr, h1.symm, h2.symm⟩
+
+theorem deliverAll_checks {db : Db} {subs : List Sub} {m : Msg} {now : Time} {fwds : List Fwd}
+    {db' : Db} {w : List Id} (h : deliverAll db subs m now fwds = .ok (db', w)) :
+    nodupIds (fwds.map (·.subId)) = true ∧
+    (fwds.map (·.subId)).length = ((subs.filter (subAccepts · m.attrs)).map (·.id)).length ∧
+    nodupIds (fwds.map (·.newId)) = true ∧ (∀ f ∈ fwds, db.allIds.contains f.newId = false) := by
+  unfold deliverAll at h
+  simp only at h
+  split at h
+  · cases h
+  · rename_i h1
+    split at h
+    · cases h
+    · rename_i h2
+      simp only [Bool.not_eq_true, Bool.not_eq_false', Bool.and_eq_true, beq_iff_eq] at h1 h2
+      refine ⟨h1.1.1, h1.1.2, h2.1, ?_⟩
+      intro f hf
+      have := List.all_eq_true.mp h2.2 f hf
+      simpa using this
 
 section
 variable {R : Delivery → Delivery → Prop}
